@@ -411,6 +411,32 @@ func c09MutSub() *engine.Sub {
 
 // ---- well-signed envelopes around malformed payloads (C10's alphabet, C09's oracle) ----
 
+// c09SpecialVarints: spellings of a uvarint at and beyond the edges of 64 bits.
+var c09SpecialVarints = [][]byte{
+	{0x00}, {0x7f}, {0x80, 0x00}, {0x80, 0x80, 0x80, 0x80, 0x80, 0x80, 0x80, 0x80, 0x80, 0x01}, // 0, 127, non-minimal 0, 2^63
+	{0xff, 0xff, 0xff, 0xff, 0xff, 0xff, 0xff, 0xff, 0xff, 0x01}, // 2^64-1
+	{0xff, 0xff, 0xff, 0xff, 0xff, 0xff, 0xff, 0xff, 0xff, 0x02}, // one bit more than 64, by value
+	{0xff, 0xff, 0xff, 0xff, 0xff, 0xff, 0xff, 0xff, 0xff, 0x7f},
+	{0x80, 0x80, 0x80, 0x80, 0x80, 0x80, 0x80, 0x80, 0x80, 0x80, 0x01},       // 11 bytes
+	{0xff, 0xff, 0xff, 0xff, 0xff, 0xff, 0xff, 0xff, 0xff, 0xff, 0xff, 0xff}, // never terminated
+	{0x80}, // truncated (when it is the last one)
+}
+
+// c09VarintBoundaries returns the offsets at which the varints of a varsig header start (after the prefix byte).
+func c09VarintBoundaries(h []byte) []int {
+	var r []int
+	pos := 0
+	for pos < len(h) && len(r) < 8 {
+		r = append(r, pos)
+		_, n := binary.Uvarint(h[pos:])
+		if n <= 0 {
+			break
+		}
+		pos += n
+	}
+	return append(r, len(h))
+}
+
 func c09SignedSub() *engine.Sub {
 	return &engine.Sub{
 		Name:   "well-signed-malformed-payloads",
@@ -505,7 +531,7 @@ func c09EnvSub() *engine.Sub {
 	return &engine.Sub{
 		Name:   "envelope-signature-and-header-shapes",
 		Repeat: true,
-		Rule:   "a genuine token of every issuer key type (Ed25519, secp256k1, P-256, P-384, P-521, RSA-2048, RSA-3072) whose signature element is replaced by: its first n bytes for every n (0 = empty), n zero bytes / n 0xff bytes for every n up to its length + 2, a set of degenerate DER fragments, the signature extended by 1..3 bytes; and whose varsig header is replaced by every truncation, an extension, the empty string and every other key type's header - offered to six decoders: no panic; non-trivial = all",
+		Rule:   "a genuine token of every issuer key type (Ed25519, secp256k1, P-256, P-384, P-521, RSA-2048, RSA-3072) whose signature element is replaced by: its first n bytes for every n (0 = empty), n zero bytes / n 0xff bytes for every n up to its length + 2, a set of degenerate DER fragments, the signature extended by 1..3 bytes; and whose varsig header is replaced by every truncation, an extension, the empty string, every other key type's header, and every varint of it replaced by or preceded by 10 special spellings of a uvarint (non-minimal, 2^63, 2^64-1, wider than 64 bits by value and by length, unterminated, truncated) - offered to six decoders: no panic; non-trivial = all",
 		Bound: func(string) string {
 			return "7 key types x (3 x (len(sig)+3) signature shapes + 9 DER fragments + len(header)+8 header shapes) x 6 decoders"
 		},
@@ -545,6 +571,17 @@ func c09EnvSub() *engine.Sub {
 						return
 					}
 				}
+				// every varint of the header replaced by, and preceded by, each special spelling of a uvarint (zero, non-minimal,
+				// 2^63, 2^64-1, one more than 64 bits by value, by length (11 bytes), unterminated, truncated)
+				for b := range c09VarintBoundaries(p.Header) {
+					for v := range c09SpecialVarints {
+						for _, sh := range []string{"varint-replaced", "varint-inserted"} {
+							if !emit(&c09EnvCase{Alg: alg, Kind: "dlg", Part: "header", Shape: sh, N: b*100 + v}) {
+								return
+							}
+						}
+					}
+				}
 			}
 		},
 		NewCase: func() any { return &c09EnvCase{} },
@@ -569,6 +606,16 @@ func c09EnvSub() *engine.Sub {
 				header = append(append([]byte{}, header...), 0x00)
 			case "header/other-alg":
 				header = headerFor(cs.Arg)
+			case "header/varint-replaced", "header/varint-inserted":
+				bs := c09VarintBoundaries(header)
+				at := bs[cs.N/100]
+				rest := header[at:]
+				if cs.Shape == "varint-replaced" {
+					if _, n := binary.Uvarint(rest); n > 0 {
+						rest = rest[n:]
+					}
+				}
+				header = append(append(append([]byte{}, header[:at]...), c09SpecialVarints[cs.N%100]...), rest...)
 			default:
 				panic(cs.Part + "/" + cs.Shape)
 			}
